@@ -3,6 +3,7 @@ package sim
 import (
 	"io"
 	"net"
+	"os"
 	"sync"
 	"time"
 )
@@ -26,6 +27,14 @@ func (h *bufHalf) signal() {
 
 type bufConn struct {
 	rd, wr *bufHalf
+	dmu    sync.Mutex
+	rdl    time.Time // read deadline (simulated clock); zero = none
+}
+
+func (c *bufConn) readDeadline() time.Time {
+	c.dmu.Lock()
+	defer c.dmu.Unlock()
+	return c.rdl
 }
 
 // BufPipe returns the two ends of a buffered in-memory connection.
@@ -49,7 +58,21 @@ func (c *bufConn) Read(p []byte) (int, error) {
 		if closed {
 			return 0, io.EOF
 		}
-		<-c.rd.wake
+		dl := c.readDeadline()
+		if dl.IsZero() {
+			<-c.rd.wake
+			continue
+		}
+		until := time.Until(dl)
+		if until <= 0 {
+			return 0, os.ErrDeadlineExceeded
+		}
+		t := time.NewTimer(until)
+		select {
+		case <-c.rd.wake:
+		case <-t.C:
+		}
+		t.Stop()
 	}
 }
 
@@ -78,6 +101,14 @@ func (c *bufConn) Close() error {
 
 func (c *bufConn) LocalAddr() net.Addr                { return Addr(0, 0) }
 func (c *bufConn) RemoteAddr() net.Addr               { return Addr(0, 0) }
-func (c *bufConn) SetDeadline(t time.Time) error      { return nil }
-func (c *bufConn) SetReadDeadline(t time.Time) error  { return nil }
-func (c *bufConn) SetWriteDeadline(t time.Time) error { return nil }
+func (c *bufConn) SetDeadline(t time.Time) error      { return c.SetReadDeadline(t) }
+func (c *bufConn) SetWriteDeadline(t time.Time) error { return nil } // (writes never block)
+
+// SetReadDeadline: a blocked or later Read fails with os.ErrDeadlineExceeded once the simulated clock passes t.
+func (c *bufConn) SetReadDeadline(t time.Time) error {
+	c.dmu.Lock()
+	c.rdl = t
+	c.dmu.Unlock()
+	c.rd.signal() // a blocked reader re-evaluates its deadline
+	return nil
+}
